@@ -8,7 +8,7 @@ if marker in d:
     d = d[:d.index(marker)]
 rows = [l for l in idx.splitlines() if l.startswith("|")]
 # compact: case | property | tier | oracle | needs (short)
-out = [marker, "Prefix: none = round 1 (independent), `R2-` = adversarial round, `R3-`/`R4-`/`R5-`/`R6-`/`R7-` = independent rounds, `R8-` = independent round asked for indirect changes outside the anchored functions. "
+out = [marker, "Prefix: none = round 1 (independent), `R2-` = adversarial round, `R3-`/`R4-`/`R5-`/`R6-`/`R7-` = independent rounds, `R8-` = independent round asked for indirect changes outside the anchored functions, `R9-` = independent round asked for one argument-form change, one indirect change and one free change. "
        "Full text (what each change breaks and needs) in `seeded/<case>/meta.json`.\n",
        "| case | check | tier that reports it | oracle | needs to manifest (abridged) |", "|---|---|---|---|---|"]
 for l in rows[2:]:
